@@ -51,6 +51,14 @@ type propSpec struct {
 	Faults    string
 	ExtraEnv  map[string]string
 	NoSimTime bool
+	// Parts are additional scenarios that serve this property (each gets Percent of the runs and
+	// of the search budget; the main scenario gets the rest).
+	Parts []partSpec
+}
+
+type partSpec struct {
+	Scenario string
+	Percent  int
 }
 
 func die(code int, format string, args ...any) {
@@ -144,6 +152,8 @@ type ctx struct {
 	t0      time.Time
 	buildS  float64
 	selfN   int
+	bins    map[string]string
+	scen    string // scenario currently being run
 }
 
 func goEnv() []string {
@@ -405,13 +415,27 @@ func regFile(core, fed []string) string {
 }
 
 func (c *ctx) build() {
-	c.bin = filepath.Join(c.scratch, "bin", c.spec.Scenario+".test")
-	args := []string{"test", "-c", "-tags", "verif", "-o", c.bin}
-	if c.spec.Race {
-		args = append(args, "-race")
+	c.bins = map[string]string{}
+	scen := []string{c.spec.Scenario}
+	for _, p := range c.spec.Parts {
+		scen = append(scen, p.Scenario)
 	}
-	args = append(args, "./scenario/"+c.spec.Scenario)
-	c.must(c.mod, "build of scenario binary", "go", args...)
+	for _, sc := range scen {
+		bin := filepath.Join(c.scratch, "bin", sc+".test")
+		args := []string{"test", "-c", "-tags", "verif", "-o", bin}
+		if c.spec.Race {
+			args = append(args, "-race")
+		}
+		args = append(args, "./scenario/"+sc)
+		c.must(c.mod, "build of scenario binary "+sc, "go", args...)
+		c.bins[sc] = bin
+	}
+	c.use(c.spec.Scenario)
+}
+
+func (c *ctx) use(scenario string) {
+	c.scen = scenario
+	c.bin = c.bins[scenario]
 }
 
 type workerOut struct {
@@ -671,7 +695,7 @@ func shortHash(s string) string {
 // error when the violation does not reproduce (infrastructure problem).
 func (c *ctx) confirm(r *runResult, processLevel bool) (string, error) {
 	fp := r.Violation.fingerprint()
-	rf := &replayFile{Property: c.spec.ID, Scenario: c.spec.Scenario, Tier: c.tier, Seed: r.Seed, RunIdx: r.Idx, Tape: r.Tape,
+	rf := &replayFile{Property: c.spec.ID, Scenario: c.scen, Tier: c.tier, Seed: r.Seed, RunIdx: r.Idx, Tape: r.Tape,
 		Fingerprint: fp, Violation: r.Violation, Trace: r.Trace, ProcessLvl: processLevel, Env: c.spec.ExtraEnv}
 	path := filepath.Join(verifDir, "replays", c.spec.ID+"-"+shortHash(fp)+".json")
 	tmp := filepath.Join(c.scratch, "replay-"+shortHash(fp)+".json")
@@ -850,144 +874,176 @@ func (c *ctx) mainFlow(replay string, keep bool) int {
 
 	if c.selfN > 0 {
 		code := c.determinismN(c.selfN, []int{1, 4, 16, 4})
+		for _, p := range c.spec.Parts {
+			if code == 0 {
+				c.use(p.Scenario)
+				code = c.determinismN(c.selfN, []int{1, 4, 16, 4})
+			}
+		}
+		c.use(c.spec.Scenario)
 		if code == 0 {
 			fmt.Printf("selftest %s: %d runs x GOMAXPROCS {1,4,16,4}: identical event logs\n", c.spec.ID, c.selfN)
 		}
 		return code
 	}
 
-	workers := 16
-	if c.ts.Runs < workers*4 {
-		workers = 1 + c.ts.Runs/8
-	}
-	per := (c.ts.Runs + workers - 1) / workers
-	outs := make([]*workerOut, workers)
-	var wg sync.WaitGroup
-	searchStart := time.Now()
-	for i := 0; i < workers; i++ {
-		wg.Add(1)
-		go func(i int) {
-			defer wg.Done()
-			from, to := i*per, (i+1)*per
-			if to > c.ts.Runs {
-				to = c.ts.Runs
-			}
-			// a worker that dies (race, crash) is restarted after the offending index
-			agg := &workerOut{counters: map[string]int{}, openIdx: -1}
-			for from < to {
-				left := c.ts.Budget - time.Since(searchStart)
-				if left < 5*time.Second {
-					break
-				}
-				wo := c.worker(i, from, to, c.spec.Cpu, left)
-				agg.results = append(agg.results, wo.results...)
-				for k, v := range wo.counters {
-					agg.counters[k] += v
-				}
-				if wo.openIdx >= 0 {
-					v := processViolation(c.spec.ID, wo.stderr, wo.exitErr)
-					if v == nil {
-						agg.exitErr = fmt.Errorf("worker %d died at run %d without a recognisable report: %v\n%s", i, wo.openIdx, wo.exitErr, tail([]byte(wo.stderr), 3000))
-						break
-					}
-					rs := runSeed(c.seed, wo.openIdx)
-					agg.results = append(agg.results, &runResult{Type: "dead", Idx: wo.openIdx, Seed: rs, Violation: v, Tape: rawTape(rs, 6000)})
-					from = wo.openIdx + 1
-					continue
-				}
-				if wo.exitErr != nil {
-					agg.exitErr = fmt.Errorf("worker %d failed: %v\n%s", i, wo.exitErr, tail([]byte(wo.stderr), 3000))
-				}
-				break
-			}
-			outs[i] = agg
-		}(i)
-	}
-	wg.Wait()
-	searchS := time.Since(searchStart).Seconds()
-
-	// aggregate
 	evals := 0
 	sigs := map[string]bool{}
 	counters := map[string]int{}
 	var simNS int64
 	var samples []any
-	byFP := map[string]*runResult{}
 	nviol := map[string]int{}
-	var fpOrder []string
-	for _, wo := range outs {
-		if wo == nil {
-			continue
-		}
-		if wo.exitErr != nil {
-			fmt.Fprintln(os.Stderr, wo.exitErr)
-			return 2
-		}
-		for k, v := range wo.counters {
-			counters[k] += v
-		}
-		for _, r := range wo.results {
-			evals++
-			simNS += r.SimNS
-			if r.Nontrivial && r.Sig != "" {
-				sigs[r.Sig] = true
-			}
-			if r.Sample != nil && len(samples) < 3 {
-				var s any
-				json.Unmarshal(r.Sample, &s)
-				samples = append(samples, s)
-			}
-			if r.Violation != nil {
-				fp := r.Violation.fingerprint()
-				nviol[fp]++
-				if old, ok := byFP[fp]; !ok || r.Idx < old.Idx {
-					if !ok {
-						fpOrder = append(fpOrder, fp)
-					}
-					byFP[fp] = r
-				}
-			}
-		}
-	}
-	sort.Strings(fpOrder)
-
-	known := loadKnown()
 	exit := 0
 	var lines []string
 	var knownHit []string
 	unknownViol := 0
-	for _, fp := range fpOrder {
-		r := byFP[fp]
-		path, err := c.confirm(r, r.Type == "dead")
-		if err != nil {
-			fmt.Fprintf(os.Stderr, "check: %v\n", err)
-			return 2
+	nfp := 0
+	workers := 16
+	var searchS float64
+	runPart := func(scenario string, runs int, budget time.Duration, prefix string) int {
+		c.use(scenario)
+		nsamp := 0
+		workers = 16
+		if runs < workers*4 {
+			workers = 1 + runs/8
 		}
-		isKnown := false
-		for _, k := range known.Findings {
-			if k.Property == c.spec.ID && matchFP(k.Fingerprint, fp) {
-				isKnown = true
-				lines = append(lines, fmt.Sprintf("KNOWN-FINDING: property=%s %s [%s, %d runs, replay=%s]", c.spec.ID, k.WhatFails, fp, nviol[fp], path))
-				knownHit = append(knownHit, fp)
+		per := (runs + workers - 1) / workers
+		outs := make([]*workerOut, workers)
+		var wg sync.WaitGroup
+		searchStart := time.Now()
+		for i := 0; i < workers; i++ {
+			wg.Add(1)
+			go func(i int) {
+				defer wg.Done()
+				from, to := i*per, (i+1)*per
+				if to > runs {
+					to = runs
+				}
+				// a worker that dies (race, crash) is restarted after the offending index
+				agg := &workerOut{counters: map[string]int{}, openIdx: -1}
+				for from < to {
+					left := budget - time.Since(searchStart)
+					if left < 5*time.Second {
+						break
+					}
+					wo := c.worker(i, from, to, c.spec.Cpu, left)
+					agg.results = append(agg.results, wo.results...)
+					for k, v := range wo.counters {
+						agg.counters[k] += v
+					}
+					if wo.openIdx >= 0 {
+						v := processViolation(c.spec.ID, wo.stderr, wo.exitErr)
+						if v == nil {
+							agg.exitErr = fmt.Errorf("worker %d died at run %d without a recognisable report: %v\n%s", i, wo.openIdx, wo.exitErr, tail([]byte(wo.stderr), 3000))
+							break
+						}
+						rs := runSeed(c.seed, wo.openIdx)
+						agg.results = append(agg.results, &runResult{Type: "dead", Idx: wo.openIdx, Seed: rs, Violation: v, Tape: rawTape(rs, 6000)})
+						from = wo.openIdx + 1
+						continue
+					}
+					if wo.exitErr != nil {
+						agg.exitErr = fmt.Errorf("worker %d failed: %v\n%s", i, wo.exitErr, tail([]byte(wo.stderr), 3000))
+					}
+					break
+				}
+				outs[i] = agg
+			}(i)
+		}
+		wg.Wait()
+		searchS += time.Since(searchStart).Seconds()
+
+		// aggregate
+		byFP := map[string]*runResult{}
+		var fpOrder []string
+		for _, wo := range outs {
+			if wo == nil {
+				continue
+			}
+			if wo.exitErr != nil {
+				fmt.Fprintln(os.Stderr, wo.exitErr)
+				return 2
+			}
+			for k, v := range wo.counters {
+				counters[prefix+k] += v
+			}
+			for _, r := range wo.results {
+				evals++
+				simNS += r.SimNS
+				if r.Nontrivial && r.Sig != "" {
+					sigs[prefix+r.Sig] = true
+				}
+				if r.Sample != nil && nsamp < 2 {
+					nsamp++
+					var s any
+					json.Unmarshal(r.Sample, &s)
+					samples = append(samples, s)
+				}
+				if r.Violation != nil {
+					fp := r.Violation.fingerprint()
+					nviol[fp]++
+					if old, ok := byFP[fp]; !ok || r.Idx < old.Idx {
+						if !ok {
+							fpOrder = append(fpOrder, fp)
+						}
+						byFP[fp] = r
+					}
+				}
 			}
 		}
-		if !isKnown {
-			unknownViol++
-			exit = 1
-			lines = append(lines, fmt.Sprintf("VIOLATION property=%s replay=%s", c.spec.ID, path))
-			lines = append(lines, fmt.Sprintf("  fingerprint %s (%d runs); %s", fp, nviol[fp], firstLine(r.Violation.Detail)))
-		}
-	}
+		sort.Strings(fpOrder)
 
-	// determinism smoke test: same seeds at two GOMAXPROCS values must give identical logs. It
-	// is run when no new violation was found: a tree that violates the property is often
-	// schedule-dependent below the seams (that is the defect), and its violations have been
-	// confirmed by replay one by one above.
-	if unknownViol == 0 {
-		if code := c.determinism(); code != 0 {
+		known := loadKnown()
+		partUnknown := 0
+		for _, fp := range fpOrder {
+			r := byFP[fp]
+			path, err := c.confirm(r, r.Type == "dead")
+			if err != nil {
+				fmt.Fprintf(os.Stderr, "check: %v\n", err)
+				return 2
+			}
+			isKnown := false
+			for _, k := range known.Findings {
+				if k.Property == c.spec.ID && matchFP(k.Fingerprint, fp) {
+					isKnown = true
+					lines = append(lines, fmt.Sprintf("KNOWN-FINDING: property=%s %s [%s, %d runs, replay=%s]", c.spec.ID, k.WhatFails, fp, nviol[fp], path))
+					knownHit = append(knownHit, fp)
+				}
+			}
+			if !isKnown {
+				unknownViol++
+				partUnknown++
+				exit = 1
+				lines = append(lines, fmt.Sprintf("VIOLATION property=%s replay=%s", c.spec.ID, path))
+				lines = append(lines, fmt.Sprintf("  fingerprint %s (%d runs); %s", fp, nviol[fp], firstLine(r.Violation.Detail)))
+			}
+		}
+
+		// determinism smoke test: same seeds at two GOMAXPROCS values must give identical logs. It
+		// is run when no new violation was found: a tree that violates the property is often
+		// schedule-dependent below the seams (that is the defect), and its violations have been
+		// confirmed by replay one by one above.
+		if partUnknown == 0 {
+			if code := c.determinism(); code != 0 {
+				return code
+			}
+		}
+		nfp += len(fpOrder)
+		return 0
+	}
+	mainPct := 100
+	for _, p := range c.spec.Parts {
+		mainPct -= p.Percent
+	}
+	if code := runPart(c.spec.Scenario, c.ts.Runs*mainPct/100, c.ts.Budget*time.Duration(mainPct)/100, ""); code != 0 {
+		return code
+	}
+	for _, p := range c.spec.Parts {
+		if code := runPart(p.Scenario, c.ts.Runs*p.Percent/100, c.ts.Budget*time.Duration(p.Percent)/100, p.Scenario+":"); code != 0 {
 			return code
 		}
 	}
+	c.use(c.spec.Scenario)
 	wall := time.Since(c.t0).Seconds()
 	if len(samples) == 0 {
 		samples = append(samples, map[string]any{"note": "no sample recorded"})
@@ -1020,7 +1076,7 @@ func (c *ctx) mainFlow(replay string, keep bool) int {
 		fmt.Println(l)
 	}
 	fmt.Printf("check %s %s: %d runs (%d distinct non-trivial), %.0f runs/h, %d violation fingerprints (%d known), wall %.1fs\n",
-		c.spec.ID, c.tier, evals, len(sigs), float64(evals)/searchS*3600, len(fpOrder), len(knownHit), wall)
+		c.spec.ID, c.tier, evals, len(sigs), float64(evals)/searchS*3600, nfp, len(knownHit), wall)
 	if evals == 0 {
 		fmt.Fprintln(os.Stderr, "check: no run was executed")
 		return 2
@@ -1098,6 +1154,9 @@ func (c *ctx) replayFlow(path string) int {
 	var rf replayFile
 	if err := json.Unmarshal(b, &rf); err != nil {
 		die(2, "%v", err)
+	}
+	if rf.Scenario != "" && c.bins[rf.Scenario] != "" {
+		c.use(rf.Scenario)
 	}
 	rr, stderr, err := c.single("replay", path, nil)
 	var v *violation
